@@ -153,7 +153,14 @@ func flipBit(t *rapid.T, b []byte, off, n int, label string) int {
 // newEltValue draws a different canonical value for a field element.
 func newEltValue(t *rapid.T, cur, p *big.Int, label string) *big.Int {
 	var v *big.Int
-	switch pick(t, 7, label+".k") {
+	switch pick(t, 10, label+".k") {
+	case 7, 8:
+		// the difference from the honest value is structured in the internal
+		// (Montgomery) representation: only part of its width is non-zero
+		d, _ := structuredDelta(t, p, -1, label)
+		v = new(big.Int).Add(cur, d)
+	case 9:
+		v, _ = structuredDelta(t, p, -1, label)
 	case 0:
 		v = new(big.Int).Add(cur, big.NewInt(1))
 	case 1:
@@ -177,6 +184,49 @@ func newEltValue(t *rapid.T, cur, p *big.Int, label string) *big.Int {
 		v.Mod(v, p)
 	}
 	return v
+}
+
+// windows of the internal representation (bit ranges [lo,hi)) that a
+// structured element leaves non-zero; everything outside is zero.
+func windows(p *big.Int) [][2]int {
+	if p.BitLen() <= 64 {
+		return [][2]int{{32, 64}, {0, 32}, {16, 64}, {48, 64}, {0, 16}, {8, 64}, {32, 33}, {63, 64}}
+	}
+	return [][2]int{{64, 128}, {0, 64}, {32, 128}, {96, 128}, {0, 32}, {32, 64}, {64, 96}, {16, 128}, {64, 65}, {127, 128}}
+}
+
+// structuredDelta returns a non-zero field element e whose Montgomery form
+// e*R mod p (R = 2^64 resp. 2^128, the representation fiat-crypto style field
+// code computes with) is zero outside one window; w < 0 draws the window.
+// Such values pass a comparison that looks at part of the representation only.
+func structuredDelta(t *rapid.T, p *big.Int, w int, label string) (*big.Int, string) {
+	ws := windows(p)
+	if w < 0 {
+		w = pick(t, len(ws), label+".win")
+	}
+	lo, hi := ws[w][0], ws[w][1]
+	width := 64
+	if p.BitLen() > 64 {
+		width = 128
+	}
+	r := new(big.Int).Lsh(big.NewInt(1), uint(width))
+	rInv := new(big.Int).ModInverse(r, p)
+	for {
+		b := make([]byte, 16)
+		vlib.FillRandom(t, b, label+".pat")
+		pat := new(big.Int).SetBytes(b)
+		if pick(t, 3, label+".small") == 0 {
+			pat.SetInt64(int64(1 + pick(t, 7, label+".k")))
+		}
+		pat.Mod(pat, new(big.Int).Lsh(big.NewInt(1), uint(hi-lo)))
+		pat.Lsh(pat, uint(lo))
+		if pat.Sign() == 0 || pat.Cmp(p) >= 0 {
+			continue
+		}
+		e := pat.Mul(pat, rInv)
+		e.Mod(e, p)
+		return e, fmt.Sprintf("mont[%d,%d)", lo, hi)
+	}
 }
 
 var altKindsAll = []string{
@@ -590,6 +640,10 @@ func batchProperty(t *rapid.T, name string, shares uint8, large bool, maxBatch i
 	I := c.I
 	l := I.L()
 	n := l.shares
+	if pick(t, 3, "repeat") == 0 {
+		I.SetRepeat(true)
+		vlib.Class(sub, "every-call-repeated")
+	}
 	vlib.Class(sub, fmt.Sprintf("shares=%d", n))
 	var vk VerifyKey
 	copy(vk[:], vlib.EdgeBytes(t, len(vk), "vk"))
@@ -842,23 +896,40 @@ func batchProperty(t *rapid.T, name string, shares uint8, large bool, maxBatch i
 		vlib.Report(t, "C19/aggregate/"+name+"/mismatch", fmt.Sprintf("%s batch %v: Unshard = %v, plain-integer aggregate = %s", c.desc, ms, got, fmtVec(want)))
 		return
 	}
-	// the same batch on the Go values, without marshalling
-	if representable && pick(t, 3, "direct") == 0 {
-		var dgot any
-		p, st := vlib.Catch(func() { dgot, err = I.Direct(&vk, ms, nonces, rands) })
+	// the same batch as a running aggregation on the Go values, without
+	// marshalling: collected half way, extended, collected twice at the end
+	if pick(t, 3, "direct") == 0 {
+		var dmid, dgot any
+		p, st := vlib.Catch(func() { dmid, dgot, err = I.Direct(&vk, ms, nonces, rands) })
 		if p != nil {
 			vlib.Report(t, "C19/panic/"+name+"/direct/"+vlib.PanicClass(p), fmt.Sprintf("%s: %v\n%s", c.desc, p, st))
 			return
 		}
+		var wantMid []*big.Int
+		for _, m := range ms[:(len(ms)+1)/2] {
+			wantMid = addVec(wantMid, c.output(m))
+		}
+		_, midRepresentable := aggEqual(c, nil, wantMid)
 		if err != nil {
-			vlib.Report(t, "C19/aggregate/"+name+"/direct-error", fmt.Sprintf("%s batch %v: %v", c.desc, ms, err))
-			return
+			if _, hv := classify(err); hv != nil {
+				vlib.Report(t, hv.key, c.desc+" (running aggregation): "+hv.detail)
+				return
+			}
+			if representable && midRepresentable {
+				vlib.Report(t, "C19/aggregate/"+name+"/direct-error", fmt.Sprintf("%s batch %v: %v", c.desc, ms, err))
+				return
+			}
+		} else {
+			if eq, _ := aggEqual(c, dmid, wantMid); midRepresentable && !eq {
+				vlib.Report(t, "C19/aggregate/"+name+"/direct-mismatch", fmt.Sprintf("%s batch %v: Unshard after %d reports = %v, want %s", c.desc, ms, (len(ms)+1)/2, dmid, fmtVec(wantMid)))
+				return
+			}
+			if eq, _ := aggEqual(c, dgot, want); representable && !eq {
+				vlib.Report(t, "C19/aggregate/"+name+"/direct-mismatch", fmt.Sprintf("%s batch %v: after an intermediate collection Unshard = %v, want %s", c.desc, ms, dgot, fmtVec(want)))
+				return
+			}
+			vlib.Class(sub, "running-aggregation-compared")
 		}
-		if eq, _ := aggEqual(c, dgot, want); !eq {
-			vlib.Report(t, "C19/aggregate/"+name+"/direct-mismatch", fmt.Sprintf("%s batch %v: Unshard = %v, want %s", c.desc, ms, dgot, fmtVec(want)))
-			return
-		}
-		vlib.Class(sub, "direct-run-compared")
 	}
 	if representable {
 		vlib.Class(sub, "aggregate-compared")
@@ -1331,5 +1402,108 @@ func TestC19Sizes(t *testing.T) {
 		vlib.Eval(sub)
 		replay["instance"] = c.desc
 		runOne(t, sub, c, m, k, p.class, replay)
+	}
+}
+
+// TestC19Structured: alterations whose difference from the honest value is
+// zero in part of the internal representation (every window of windows()),
+// applied to every element of the leader's measurement and proof share and of
+// one prep share (capped for large instances). A comparison that only looks
+// at part of an element (IsZero / IsEqual in Decide) would let them through.
+func TestC19Structured(t *testing.T) {
+	defer vlib.Done()
+	for _, name := range instNames {
+		name := name
+		t.Run(name, func(t *testing.T) {
+			vlib.Check(t, vlib.N(30, 80), func(t *rapid.T) {
+				sub := "structured/" + name
+				c, be, call := drawCase(t, name, uint8(2+pick(t, 2, "shares")), false)
+				if be != nil {
+					vlib.Report(t, "C19/constructor/"+name+"/valid-params-refused", fmt.Sprintf("%s: err=%v panic=%v", call, be.err, be.panicked))
+					return
+				}
+				I := c.I
+				l := I.L()
+				var vk VerifyKey
+				copy(vk[:], vlib.EdgeBytes(t, len(vk), "vk"))
+				m, _ := c.genMeas(t, "m")
+				r := &report{m: m}
+				copy(r.nonce[:], vlib.EdgeBytes(t, len(r.nonce), "nonce"))
+				r.rand = vlib.EdgeBytes(t, l.randSize, "rand")
+				var err error
+				var o outcome
+				p, st := vlib.Catch(func() {
+					if r.pub, r.ins, err = I.Shard(m, &r.nonce, r.rand); err == nil {
+						o = process(I, &vk, honestView(I, r))
+					}
+				})
+				if p != nil || err != nil || !o.accepted {
+					vlib.Report(t, "C19/honest-rejected/"+name+"/structured", fmt.Sprintf("%s measurement %v: panic=%v err=%v stage=%s %v\n%s", c.desc, m, p, err, o.stage, o.err, st))
+					return
+				}
+				r.prepShares, r.prepMsg = o.pss, o.msg
+				// element positions: all if few, else first / last few and random ones
+				positions := func(n int) []int {
+					if n <= 12 {
+						return seq(n)
+					}
+					ps := []int{0, 1, 2, n - 3, n - 2, n - 1}
+					for k := 0; k < 4; k++ {
+						ps = append(ps, rapid.IntRange(3, n-4).Draw(t, "pos"))
+					}
+					return ps
+				}
+				agg := pick(t, l.shares, "agg")
+				type target struct {
+					where string
+					idx   int
+				}
+				var targets []target
+				for _, i := range positions(l.measLen + l.proofLen) {
+					targets = append(targets, target{"leader", i})
+				}
+				for _, i := range positions(l.verLen) {
+					targets = append(targets, target{"prepshare", i})
+				}
+				for _, tg := range targets {
+					for w := range windows(l.p) {
+						d, wl := structuredDelta(t, l.p, w, "d")
+						v := honestView(I, r)
+						label := tg.where + "-elt+" + wl
+						if tg.where == "leader" {
+							b := cp(r.ins[0])
+							x := getElt(b, tg.idx, l.fs)
+							x.Add(x, d).Mod(x, l.p)
+							putElt(b, tg.idx, l.fs, x)
+							v.ins[0] = b
+						} else {
+							b := cp(r.prepShares[agg])
+							x := getElt(b, tg.idx, l.fs)
+							x.Add(x, d).Mod(x, l.p)
+							putElt(b, tg.idx, l.fs, x)
+							v.alterPrepShares = func(ps [][]byte) string { ps[agg] = b; return "" }
+						}
+						vlib.Eval(sub)
+						var o outcome
+						p, st := vlib.Catch(func() { o = process(I, &vk, v) })
+						if p != nil {
+							vlib.Report(t, "C19/panic/"+name+"/prepare/"+vlib.PanicClass(p), fmt.Sprintf("%s %s: %v\n%s", c.desc, label, p, st))
+							return
+						}
+						if o.viol != nil {
+							vlib.Report(t, o.viol.key, c.desc+" "+label+": "+o.viol.detail)
+							return
+						}
+						if o.accepted {
+							vlib.Report(t, "C19/altered-accepted/"+name+"/structured-"+tg.where+"-elt",
+								fmt.Sprintf("%s measurement %v nonce %x vk %x rand %s: element %d of the %s share changed by %s (Montgomery form zero outside bits %s) passes preparation at all aggregators",
+									c.desc, m, r.nonce, vk, vlib.Hex(r.rand), tg.idx, tg.where, d, wl))
+							return
+						}
+						vlib.NonTrivial(sub, tg.where+"+"+wl+" → rejected@"+o.stage, []byte(c.desc), measBytes(m), r.nonce[:], r.rand, vk[:], []byte(label), []byte(fmt.Sprint(tg.idx)), d.Bytes())
+					}
+				}
+			})
+		})
 	}
 }
